@@ -450,9 +450,14 @@ func TestC09(t *testing.T) {
 					emitted = append(emitted, c09emitted{wire: w.Data, refusedBefore: rb})
 				}
 				link := -1
-				if len(emitted) > 0 && key != nil {
-					if f, _, st := ref.ParseAt(emitted[0].wire, 0); st == ref.ParseOK {
-						link = int(f.LinkID)
+				if key != nil {
+					// the link's link id: the one on the first frame the node ORIGINATED on it (forwarded frames carry whatever
+					// they carry)
+					for _, e := range emitted {
+						if f, _, st := ref.ParseAt(e.wire, 0); st == ref.ParseOK && f.MsgID != c09forwardID {
+							link = int(f.LinkID)
+							break
+						}
 					}
 				}
 				rep.Distinct(conf.String(), "node", ti)
